@@ -113,7 +113,7 @@ def svd(Y_full, e=1E-10, r=1.E+12):
     q = 1
     for k in n[:-1]:
         Z = Z.reshape(q * k, -1)
-        G, Z = matrix_skeleton(Z, e, r)
+        G, Z = matrix_skeleton(Z, e, r, give_to='r')
         G = G.reshape(q, k, -1)
         q = G.shape[-1]
         Y.append(G)
